@@ -55,6 +55,8 @@ func runC14(c *Ctx) error {
 	}
 	cases = append(cases, c14Case{Class: "decorator-batch", Window: 400 * time.Millisecond, Decorator: true})
 	cases = append(cases, c14Case{Class: "default-repository", Window: time.Minute})
+	// a delivery whose context is over already fails or passes; when it failed, the redelivery (live context) is the first of its key
+	cases = append(cases, c14Case{Class: "abandoned-delivery", Window: 400 * time.Millisecond}, c14Case{Class: "abandoned-delivery", Window: 400 * time.Millisecond, Decorator: true})
 	for i := 0; i < c.Pick(2, 20); i++ {
 		cases = append(cases, c14Case{Class: "decorator-overlap", Window: 50 * time.Millisecond, Keys: 3, Decorator: true})
 		cases = append(cases, c14Case{Class: "refresh", Window: 60 * time.Millisecond, Decorator: i%2 == 1})
@@ -204,6 +206,38 @@ func c14Run(r *tr.Run, cs c14Case, rng *rand.Rand) {
 		}
 	}
 	switch {
+	case cs.Class == "abandoned-delivery":
+		for k := 0; k < 8; k++ {
+			key := fmt.Sprintf("K%d", k)
+			smu.Lock()
+			seq++
+			id := fmt.Sprintf("r%d-%d", r.ID, seq)
+			smu.Unlock()
+			m := message.NewMessage(id, payloadOf(key))
+			m.Metadata.Set("key", key)
+			dctx, dcancel := context.WithCancel(context.Background())
+			dcancel()
+			m.SetContext(dctx)
+			a := now()
+			var err error
+			dup := false
+			if cs.Decorator {
+				err = decorated.Publish("t", m)
+				_, fw := invoked.Load(id)
+				dup = !fw
+			} else {
+				var outs []*message.Message
+				outs, err = mw(m)
+				dup = outs == nil
+			}
+			b := now()
+			if err == nil { // (it passed all the same: judged like any other)
+				_, inv := invoked.Load(id)
+				r.Emit("ret", "g", "g0", "key", key, "t0", a, "t1", b, "dup", dup, "invoked", inv, "acked", true)
+			}
+			time.Sleep(3 * time.Millisecond)
+			present("g0", key)
+		}
 	case cs.Class == "default-repository":
 		present("g0", "X") // through the first wrapped handler
 		useMw2 = true
@@ -352,6 +386,19 @@ func c14Hashers(r *tr.Run, rng *rand.Rand, n int) int {
 		hashers = append(hashers, hs{"adler32", lim, eff, middleware.NewMessageHasherAdler32(lim)}, hs{"sha256", lim, eff, middleware.NewMessageHasherSHA256(lim)})
 	}
 	count := 0
+	for _, h := range hashers {
+		// messages without a payload (nil or empty) are equal up to any limit, whatever their UUIDs
+		for _, pr := range [][2][]byte{{nil, nil}, {nil, {}}, {{}, {}}, {nil, []byte("x")}} {
+			ka, e1 := h.f(message.NewMessage("uuid-one", pr[0]))
+			kb, e2 := h.f(message.NewMessage("uuid-two", pr[1]))
+			if e1 != nil || e2 != nil {
+				r.Emit("error", "what", "hasher error")
+				continue
+			}
+			r.Emit("hash", "hasher", h.name, "limit", h.limit, "equalprefix", bytes.Equal(pr[0], pr[1]), "samekey", ka == kb, "la", len(pr[0]), "lb", len(pr[1]))
+			count++
+		}
+	}
 	for i := 0; i < n; i++ {
 		h := hashers[i%len(hashers)]
 		la := h.eff - 6 + rng.Intn(13)
